@@ -22,7 +22,7 @@ REQUIRED_COUNTERS = ["conditioning_zero", "conditioning_inside_spectral_gap", "s
 
 
 def plan(tier, seed):
-    return [{"shard": i, "n_syn": 20 if tier == "quick" else 320, "n_e2e": 2 if tier == "quick" else 20} for i in range(16)]
+    return [{"shard": i, "n_syn": 20 if tier == "quick" else 6000, "n_e2e": 2 if tier == "quick" else 300} for i in range(16)]
 
 
 def synth(rng, n, kind, dtype):
